@@ -453,3 +453,7 @@ def run(cx):
     cx.guard(r8_no_recollect)
     cx.guard(r9_line_separator)
     cx.guard(r9b_codec_and_location)
+    # the loader runs the allow-list post-filter over what it reads: its match budgets live in a table shared through the filter cache, so consuming
+    # them in place makes a second load (the next element of a multi-output spec, the next archive) lose persisted lines (C07.R7 re-checked)
+    from . import c07
+    cx.borrow(c07.r7_copy_before_mutation, "C07.R7", "C11.R10", "loading never consumes the shared filter budgets (C07.R7)", [])
